@@ -12,7 +12,10 @@ MANIFEST = {
             'Standard\'s sets; output_encoding is idempotent and is what new_encoder() dispatches on (its unreachable arms are '
             'exactly the remapped variants); is_single_byte is exactly {SingleByte, UserDefined} and exactly those variants\' '
             'length queries are the identity; eq/hash are by address and no Encoding can be constructed, cloned or mutated '
-            'outside the crate. That bytes 00-7F really round-trip in each ASCII-compatible converter is behaviour and not decided.',
+            'outside the crate. R-XUD: for x-user-defined, which has no table, the converters\' exact classes are extracted by interval '
+            'propagation (bytes 00-7F / U+0000-U+007F identity, 80-FF <-> U+F780-U+F7FF, everything else unmappable with the '
+            'character itself as payload). That bytes 00-7F really round-trip in each of the other ASCII-compatible converters is '
+            'behaviour and not decided here (their ASCII paths are the shared kernels of C14/C17).',
     'note': 'Trusted: rustc const evaluation and MIR, mirx, rule library, the Standard\'s encoding list transcribed in rules/p_c20.py.',
     'technique': 'abstract interpretation over a finite pointer domain (40 statics) + obligations on const-evaluated statics',
 }
@@ -279,6 +282,8 @@ def strip_cast(e):
 
 
 def run(rep, facts, tier):
+    import r_xud
     for c, f in facts.items():
         run_cfg(rep, f, c)
+        r_xud.run(rep, f, c)
     return ('proof', MANIFEST['text'], ['Encoding Standard encoding list / output-encoding rule transcribed in rules/p_c20.py (SPEC, TO_UTF8, NOT_ASCII_COMPAT)'])
